@@ -458,6 +458,12 @@ class NestedDictRAMDataStore(datastore.DataStore):
         raise custom_errors.NotFoundError(
             'No such study:', s_resource.name
         ) from e
+      # Nothing is written unless every named Trial exists.
+      trial_metadata = list(trial_metadata)
+      for md in trial_metadata:
+        t_resource = s_resource.trial_resource(md.trial_id)
+        if t_resource.trial_id not in study_node.trial_protos:
+          raise custom_errors.NotFoundError('No such trial:', t_resource.name)
       # Store Study-related metadata into the database.
       vz.metadata_util.merge_study_metadata(
           study_node.study_proto.study_spec, copy.deepcopy(study_metadata)
